@@ -43,7 +43,8 @@ CONSTANTS
   Outcome,    \* [Jobs -> "ok" | "err" | "panic"]: what the worker function does for the job
   BatchOf,    \* [Jobs -> Nat]: 0 = single job, b > 0 = item of the AddAll batch b
   Faults,     \* adapter calls refused: set of <<"enq"|"deq"|"ack", k>> (the k-th call of that kind, from 0)
-  MaxCrash    \* how many times the process may die (adapter queue kinds only)
+  MaxCrash,   \* how many times the process may die (adapter queue kinds only)
+  TrackTune   \* BOOLEAN: keep the history needed for C02_TuneBound (it multiplies the state space; on in the tuning configurations)
 
 STOP == 0
 NQ == Len(QKinds)
@@ -162,7 +163,8 @@ Init ==
           ip |-> [c \in Clients |-> 1],
           loc |-> [p \in Procs |-> IF p = "pg1" /\ ~NoBind THEN [NoLoc EXCEPT !.node = 1] ELSE NoLoc]]
   /\ H = [enters |-> [j \in Jobs |-> 0], exits |-> [j \in Jobs |-> 0], accepted |-> {}, rejected |-> {}, cancelNil |-> {},
-          closeStarted |-> {}, purged |-> {}, concMax |-> Conc0, epoch |-> "open", pauseStarts |-> 0, ctl |-> 0, viol |-> {}]
+          closeStarted |-> {}, purged |-> {}, concMax |-> Conc0, epoch |-> "open", pauseStarts |-> 0, ctl |-> 0, viol |-> {},
+          tb |-> [n |-> 0, old |-> {}]]        \* the last TunePool that has returned: its limit, and the jobs that were Processing then
 
 -----------------------------------------------------------------------------
 (* Helpers: finishing a client op, returning from a sub-procedure, history *)
@@ -440,18 +442,19 @@ T_Store(p) ==
        IF S.conc = n THEN S' = Fin(S, p) /\ UNCHANGED H
        ELSE /\ S' = [S EXCEPT !.conc = n, !.loc[p].old = S.conc, !.loc[p].n = n, !.pc[p] = "tune.stored"]
             /\ H' = [H EXCEPT !.concMax = Max({@, n})]
+TuneRet(p) == IF TrackTune /\ S'.pc[p] \in {"call", "done"} THEN [H EXCEPT !.tb = [n |-> S.loc[p].n, old |-> {j \in Jobs : S.jst[j] = "processing"}]] ELSE H
 T_After(p) ==
   /\ S.pc[p] = "tune.stored"
   /\ IF S.loc[p].n > S.loc[p].old THEN MxFree /\ S' = Fin(NotifyS(S), p)
      ELSE IF Expiry THEN S' = Fin(S, p)
      ELSE S' = [S EXCEPT !.loc[p].shrink = S.loc[p].old - S.loc[p].n, !.pc[p] = "i.tune.loop"]
-  /\ UNCHANGED H
+  /\ H' = TuneRet(p)
 T_Loop(p) ==
   /\ S.pc[p] = "i.tune.loop"
   /\ IF S.loc[p].shrink > 0 /\ Len(S.idle) > MinIdle /\ S.idle # <<>>
        THEN S' = [S EXCEPT !.idle = Front(@), !.loc[p].node = Last(S.idle), !.loc[p].shrink = @ - 1, !.pc[p] = "tune.popped"]
        ELSE S' = Fin(S, p)
-  /\ UNCHANGED H
+  /\ H' = TuneRet(p)
 T_Stop(p) ==
   /\ S.pc[p] = "tune.popped" /\ Len(S.nch[S.loc[p].node]) < 1
   /\ S' = [S EXCEPT !.nch[S.loc[p].node] = Append(@, STOP), !.cache = @ \cup {S.loc[p].node}, !.pc[p] = "i.tune.loop"]
